@@ -45,7 +45,7 @@ Definition apply_opt (w : writer) (o : wopt) : writer * ecls :=
   let setf f := mkw (w_state w) (w_serr w) (mkfo f (fo_csize fo) (fo_level fo) (fo_legacy fo)) (w_num w) (w_bsz w) (w_pend w) (w_content w) (w_sink w) (w_old w) in
   match o with
   | OBlockSize size =>
-    if lz4block_IsValid size then (setf (lz4stream_DescriptorFlags_BlockSizeIndexSet (fo_flags fo) (lz4block_Index size)), ENil)
+    if lz4block_BlockSizeIndex_IsValid (lz4block_Index size) then (setf (lz4stream_DescriptorFlags_BlockSizeIndexSet (fo_flags fo) (lz4block_Index size)), ENil)
     else (w, EBlkSize)
   | OBlockChecksum b => (setf (lz4stream_DescriptorFlags_BlockChecksumSet (fo_flags fo) b), ENil)
   | OChecksum b => (setf (lz4stream_DescriptorFlags_ContentChecksumSet (fo_flags fo) b), ENil)
@@ -81,10 +81,10 @@ Definition st_check (w : writer) (e : ecls) : writer :=
   | _ => set_state w lz4_errorState e
   end.
 
-(* Frame.Reset + state.reset: ContentSize is zeroed, the flags stay *)
+(* Frame.Reset + state.reset: ContentSize is zeroed and the Size flag cleared, the other flags stay *)
 Definition w_reset (w : writer) (fresh : sink) (keep_old : bool) : writer :=
   let fo := w_opts w in
-  mkw lz4_newState ENil (mkfo (fo_flags fo) 0 (fo_level fo) (fo_legacy fo)) (w_num w) (w_bsz w) (w_pend w) (w_content w)
+  mkw lz4_newState ENil (mkfo (lz4stream_DescriptorFlags_SizeSet (fo_flags fo) false) 0 (fo_level fo) (fo_legacy fo)) (w_num w) (w_bsz w) (w_pend w) (w_content w)
       fresh (if keep_old then w_sink w :: w_old w else w_old w).
 
 (* Writer.init: buffers, header write *)
